@@ -286,6 +286,9 @@ def _chain(rc: RuleCtx, name: str, pop_signs):
     if early_:
         res.violation("H3", mod, fi.name, early_[0], "the scan can be left before every index was offered to the chain (a break / return at the level of the scan loop)",
                       ast.unparse(mod.parent(early_[0]) or early_[0])[:100] if hasattr(mod, "parent") else "break", "no exit from the scan loop", construct="scan left early")
+    skips_ = [n_ for st_ in loop.body if st_ is not w for n_ in ast.walk(st_) if isinstance(n_, ast.Continue)]
+    if skips_:
+        raise AnalysisError(f"{fi.qualname}: the scan loop can skip an index (`continue`, line {skips_[0].lineno}) - shape not recognised")
     # popping loop only pops
     wenv = dict(benv)
     from .common import carry
